@@ -15,6 +15,7 @@ pub struct Outcome {
     pub fails: Vec<(usize, String)>,
     pub layouts: u64,
     pub ops: u64,
+    pub fresh_scribbles: u64,
     pub trace: Vec<String>,
 }
 
@@ -30,7 +31,7 @@ pub fn run_history(seed: u64, idx: u64, exact: bool, verbose: bool) -> Outcome {
     let a0 = avail(&mut rng, &cfg);
     compute(&mut w.t, root, a0);
     let nops = 5 + rng.below(25);
-    let mut out = Outcome { fails: vec![], layouts: 0, ops: 0, trace: vec![] };
+    let mut out = Outcome { fails: vec![], layouts: 0, ops: 0, fresh_scribbles: 0, trace: vec![] };
     if verbose {
         out.trace.push(format!("initial tree: {:#?}\ninitial layout avail={:?}", spec, a0));
     }
@@ -63,15 +64,12 @@ pub fn run_history(seed: u64, idx: u64, exact: bool, verbose: bool) -> Outcome {
             taffy::verif_hooks::start_trace();
             compute(&mut ft, fids[0], *a);
             #[cfg(taffy_verif)]
-            {
-                let ftrace = taffy::verif_hooks::take_trace();
-                for (k, f) in fids.iter().enumerate() {
-                    if k > 0 && classify(&ftrace, *f) == "scribble" {
-                        out.fails.push((step, format!("node#{k}/{} class=fresh-scribble :: a fresh pass leaves a layout written under ComputeSize", fids.len())));
-                        break;
-                    }
-                }
+            let ftrace = taffy::verif_hooks::take_trace();
+            #[cfg(taffy_verif)]
+            if fids.iter().skip(1).any(|f| classify(&ftrace, *f) == "scribble") {
+                out.fresh_scribbles += 1;
             }
+            let mut worst: Option<(u8, String)> = None;
             for (k, (n, f)) in nodes.iter().zip(fids.iter()).enumerate() {
                 let inc = (layout_bits(w.t.layout(*n).unwrap()), layout_bits(w.t.unrounded_layout(*n)));
                 let fre = (layout_bits(ft.layout(*f).unwrap()), layout_bits(ft.unrounded_layout(*f)));
@@ -80,18 +78,22 @@ pub fn run_history(seed: u64, idx: u64, exact: bool, verbose: bool) -> Outcome {
                         "order", "x", "y", "w", "h", "cw", "ch", "sbw", "sbh", "bl", "br", "bt", "bb", "pl", "pr", "pt", "pb", "ml", "mr", "mt", "mb",
                     ];
                     let mut fields = vec![];
-                    let mut maxdiff = 0f32;
                     for (which, (a, b)) in [(&inc.0, &fre.0), (&inc.1, &fre.1)].iter().enumerate() {
                         for j in 0..21 {
                             if a[j] != b[j] {
                                 fields.push(format!("{}{}", if which == 0 { "r." } else { "u." }, NAMES[j]));
-                                if j > 0 {
-                                    maxdiff = maxdiff.max((f32::from_bits(a[j]) - f32::from_bits(b[j])).abs());
-                                }
                             }
                         }
                     }
-                    // is the node hidden (display:none itself or below a display:none ancestor)?
+                    #[cfg(taffy_verif)]
+                    let class = {
+                        let ci = classify(&trace, *n);
+                        let cf = classify(&ftrace, *f);
+                        if ci == "scribble" || cf == "scribble" { "scribble" } else { ci }
+                    };
+                    #[cfg(not(taffy_verif))]
+                    let class = "untraced";
+                    // is the node inside a display:none region (itself or an ancestor display:none)?
                     let mut hidden = false;
                     let mut cur = Some(*n);
                     while let Some(c) = cur {
@@ -100,27 +102,23 @@ pub fn run_history(seed: u64, idx: u64, exact: bool, verbose: bool) -> Outcome {
                         }
                         cur = w.t.parent(c);
                     }
-                    #[cfg(taffy_verif)]
-                    let class = classify(&trace, *n);
-                    #[cfg(not(taffy_verif))]
-                    let class = "untraced";
-                    out.fails.push((
-                        step,
-                        format!(
-                            "node#{k}/{} class={} hidden={} fields={} maxdiff={} :: incremental {:?} vs fresh {:?}",
-                            nodes.len(),
-                            class,
-                            hidden,
-                            fields.join(","),
-                            maxdiff,
-                            w.t.unrounded_layout(*n),
-                            ft.unrounded_layout(*f)
-                        ),
-                    ));
-                    break;
+                    let class = if hidden && class != "scribble" { "hiddenstale" } else { class };
+                    let rank = if class == "scribble" { 1 } else if class == "hiddenstale" { 2 } else { 3 };
+                    let msg = format!(
+                        "node#{k}/{} class={} fields={} :: incremental {:?} vs fresh {:?}",
+                        nodes.len(),
+                        class,
+                        fields.join(","),
+                        w.t.unrounded_layout(*n),
+                        ft.unrounded_layout(*f)
+                    );
+                    if worst.as_ref().map(|w| w.0 < rank).unwrap_or(true) {
+                        worst = Some((rank, msg));
+                    }
                 }
             }
-            if !out.fails.is_empty() {
+            if let Some((_, msg)) = worst {
+                out.fails.push((step, msg));
                 break;
             }
         }
@@ -167,12 +165,13 @@ pub fn main(args: &[String]) {
             let start: u64 = args[2].parse().unwrap();
             let n: u64 = args[3].parse().unwrap();
             let exact = args.get(4).map(|s| s == "1").unwrap_or(false);
-            let (mut layouts, mut ops) = (0, 0);
+            let (mut layouts, mut ops, mut fsc) = (0, 0, 0);
             for idx in start..start + n {
                 match std::panic::catch_unwind(|| run_history(seed, idx, exact, false)) {
                     Ok(o) => {
                         layouts += o.layouts;
                         ops += o.ops;
+                        fsc += o.fresh_scribbles;
                         for (step, m) in o.fails {
                             println!("FAIL {idx} {step} {}", m.replace('\n', " "));
                         }
@@ -180,7 +179,7 @@ pub fn main(args: &[String]) {
                     Err(_) => println!("PANIC {idx}"),
                 }
             }
-            println!("DONE {n} {layouts} {ops}");
+            println!("DONE {n} {layouts} {ops} {fsc}");
         }
         "one" => {
             let seed: u64 = args[1].parse().unwrap();
